@@ -109,11 +109,16 @@ Proof. now apply str_eqb_eq. Qed.
 
 (* ================================================================ shape of an accepted call *)
 
+(* the tester state after the OrderID step (fixes/R12b: one id per root ClOrdID) and the id it yields *)
+Definition ids_state (t : tstate) (o : order) : tstate :=
+  match o_oid o with None => snd (order_id_for t (root_of o)) | Some _ => t end.
+Definition oid_num (t : tstate) (o : order) : Z := fst (order_id_for t (root_of o)).
+
 Definition order_id_text (t : tstate) (o : order) : str :=
-  match o_oid o with None => z_to_dec (t_oid t + 1) | Some s => s end.
+  match o_oid o with None => z_to_dec (oid_num t o) | Some s => s end.
 
 Definition after_ids (t : tstate) (o : order) : tstate :=
-  mkT (match o_oid o with None => t_oid t + 1 | Some _ => t_oid t end) (t_eid t + 1) (t_reg t).
+  let t1 := ids_state t o in mkT (t_oid t1) (t_eid t + 1) (t_reg t) (t_oids t1).
 
 Definition report (t : tstate) (o : order) (a : eargs) (clord : str) (oq cum leaves price : Z) (last : msg) : msg :=
   ([(T_ClOrdID, VS clord); (T_OrderID, VS (order_id_text t o)); (T_ExecID, VS (z_to_dec (t_eid t + 1)))]
@@ -122,6 +127,42 @@ Definition report (t : tstate) (o : order) (a : eargs) (clord : str) (oq cum lea
   ++ [(T_CumQty, VQ cum); (T_LeavesQty, VQ leaves)] ++ last
   ++ [(T_Symbol, VS (o_ticker o)); (T_Price, VQ price); (T_OrderQty, VQ oq);
       (T_AvgPx, VQ (a_avg a)); (T_Account, VS (o_account o))].
+
+(* the function, with the id bookkeeping folded into order_id_text / after_ids *)
+Lemma fix_exec_unfold u t o a :
+  fix_exec_report_msg u t o a =
+  if negb (registered t (o_clord o)) then AssertionFailed t else
+  match a_clord a with
+  | None | Some [] => AssertionFailed t
+  | Some (c :: cs) =>
+    if (a_status a =? CREATED)%N then AssertionFailed t else
+    match resolve_qtys o a with
+    | None => AssertionFailed (after_ids t o)
+    | Some (oq, cum, leaves) =>
+      match trade_fields u o a cum with
+      | None => AssertionFailed (after_ids t o)
+      | Some last =>
+        match resolve_price o a with
+        | None => AssertionFailed (after_ids t o)
+        | Some price =>
+          if pending_cancel_ok o a cum leaves && finished_ok a leaves
+          then Ok (report t o a (c :: cs) oq cum leaves price last) (after_ids t o)
+          else AssertionFailed (after_ids t o)
+        end
+      end
+    end
+  end.
+Proof.
+  unfold fix_exec_report_msg, report, order_id_text, after_ids, ids_state, oid_num, order_id_for,
+    next_order_id, next_exec_id.
+  destruct (negb (registered t (o_clord o))); [reflexivity|].
+  destruct (a_clord a) as [[|c cs]|]; try reflexivity.
+  destruct (a_status a =? CREATED)%N; [reflexivity|].
+  destruct (o_oid o) as [s|]; [|destruct (lookup (root_of o) (t_oids t))]; cbn [fst snd t_oid t_eid t_reg t_oids];
+  (destruct (resolve_qtys o a) as [[[oq cum] leaves]|]; [|reflexivity];
+   destruct (trade_fields u o a cum) as [last|]; [|reflexivity];
+   destruct (resolve_price o a) as [price|]; reflexivity).
+Qed.
 
 Lemma exec_ok_inv u t o a m t' :
   fix_exec_report_msg u t o a = Ok m t' ->
@@ -136,65 +177,91 @@ Lemma exec_ok_inv u t o a m t' :
     t' = after_ids t o /\
     m = report t o a clord oq cum leaves price last.
 Proof.
-  unfold fix_exec_report_msg. intros H.
+  rewrite fix_exec_unfold. intros H.
   destruct (registered t (o_clord o)) eqn:R; cbn [negb] in H; [|discriminate].
   destruct (a_clord a) as [[|c cs]|] eqn:C; try discriminate.
-  assert (IDS : (let '(order_id, t1) :=
-      match o_oid o with
-      | None => let '(n, t'0) := next_order_id t in (z_to_dec n, t'0)
-      | Some s => (s, t)
-      end in let '(eid, t2) := next_exec_id t1 in (order_id, eid, t2))
-      = (order_id_text t o, t_eid t + 1, after_ids t o)).
-  { unfold order_id_text, after_ids, next_order_id, next_exec_id. destruct (o_oid o); reflexivity. }
-  unfold order_id_text, after_ids, next_order_id, next_exec_id in *.
-  destruct (o_oid o) as [s|] eqn:OID; cbn [t_oid t_eid t_reg] in *;
-  (destruct (resolve_qtys o a) as [[[oq cum] leaves]|] eqn:Q; [|discriminate];
-   destruct (trade_fields u o a cum) as [last|] eqn:TF; [|discriminate];
-   destruct (resolve_price o a) as [price|] eqn:P; [|discriminate];
-   destruct (pending_cancel_ok o a cum leaves) eqn:PC; cbn [andb] in H; [|discriminate];
-   destruct (finished_ok a leaves) eqn:F; [|discriminate];
-   inversion H; subst; exists (c :: cs), oq, cum, leaves, price, last;
-   unfold report, order_id_text; rewrite OID; repeat split; try reflexivity; try assumption; discriminate).
+  destruct (a_status a =? CREATED)%N; [discriminate|].
+  destruct (resolve_qtys o a) as [[[oq cum] leaves]|] eqn:Q; [|discriminate].
+  destruct (trade_fields u o a cum) as [last|] eqn:TF; [|discriminate].
+  destruct (resolve_price o a) as [price|] eqn:P; [|discriminate].
+  destruct (pending_cancel_ok o a cum leaves) eqn:PC; cbn [andb] in H; [|discriminate].
+  destruct (finished_ok a leaves) eqn:F; [|discriminate].
+  inversion H; subst. exists (c :: cs), oq, cum, leaves, price, last.
+  repeat split; try reflexivity; try assumption; discriminate.
+Qed.
+
+(* fixes/R12a: the library-internal status is never put on the wire *)
+Lemma exec_status_not_created u t o a m t' :
+  fix_exec_report_msg u t o a = Ok m t' -> a_status a <> CREATED.
+Proof.
+  rewrite fix_exec_unfold. intros H E.
+  destruct (negb (registered t (o_clord o))); [discriminate|].
+  destruct (a_clord a) as [[|c cs]|]; try discriminate.
+  rewrite E in H. discriminate.
 Qed.
 
 (* conversely: exactly these conditions make the helper return a message *)
 Lemma exec_ok_intro u t o a clord oq cum leaves price last :
-  registered t (o_clord o) = true -> a_clord a = Some clord -> clord <> [] ->
+  registered t (o_clord o) = true -> a_clord a = Some clord -> clord <> [] -> a_status a <> CREATED ->
   resolve_qtys o a = Some (oq, cum, leaves) -> trade_fields u o a cum = Some last ->
   resolve_price o a = Some price -> pending_cancel_ok o a cum leaves = true -> finished_ok a leaves = true ->
   fix_exec_report_msg u t o a = Ok (report t o a clord oq cum leaves price last) (after_ids t o).
 Proof.
-  intros R C NE Q TF P PC F. unfold fix_exec_report_msg. rewrite R, C. cbn [negb].
+  intros R C NE ST Q TF P PC F. rewrite fix_exec_unfold. rewrite R, C. cbn [negb].
   destruct clord as [|c cs]; [congruence|].
-  unfold report, order_id_text, after_ids, next_order_id, next_exec_id.
-  destruct (o_oid o); cbn [t_oid t_eid t_reg]; rewrite Q, TF, P, PC, F; reflexivity.
+  apply N.eqb_neq in ST. rewrite ST, Q, TF, P, PC, F. reflexivity.
 Qed.
 
 Lemma exec_accepts_iff u t o a m t' :
   fix_exec_report_msg u t o a = Ok m t' <->
   exists clord oq cum leaves price last,
-    registered t (o_clord o) = true /\ a_clord a = Some clord /\ clord <> [] /\
+    registered t (o_clord o) = true /\ a_clord a = Some clord /\ clord <> [] /\ a_status a <> CREATED /\
     resolve_qtys o a = Some (oq, cum, leaves) /\ trade_fields u o a cum = Some last /\
     resolve_price o a = Some price /\ pending_cancel_ok o a cum leaves = true /\ finished_ok a leaves = true /\
     t' = after_ids t o /\ m = report t o a clord oq cum leaves price last.
 Proof.
-  split; [apply exec_ok_inv|].
-  intros (clord & oq & cum & leaves & price & last & R & C & NE & Q & TF & P & PC & F & -> & ->).
-  now apply exec_ok_intro.
+  split.
+  - intros H. pose proof (exec_status_not_created _ _ _ _ _ _ H) as ST.
+    apply exec_ok_inv in H as (clord & oq & cum & leaves & price & last & R & C & NE & Q & TF & P & PC & F & E1 & E2).
+    exists clord, oq, cum, leaves, price, last. repeat split; assumption.
+  - intros (clord & oq & cum & leaves & price & last & R & C & NE & ST & Q & TF & P & PC & F & -> & ->).
+    now apply exec_ok_intro.
 Qed.
 
 Lemma exec_fail_state u t o a t' :
   fix_exec_report_msg u t o a = AssertionFailed t' ->
   t' = t \/ t' = after_ids t o.
 Proof.
-  unfold fix_exec_report_msg, after_ids, next_order_id, next_exec_id. intros H.
+  rewrite fix_exec_unfold. intros H.
   destruct (registered t (o_clord o)); cbn [negb] in H; [|inversion H; now left].
   destruct (a_clord a) as [[|c cs]|]; try (inversion H; now left).
-  destruct (o_oid o) as [s|]; cbn [t_oid t_eid t_reg] in *;
-  (destruct (resolve_qtys o a) as [[[oq cum] leaves]|]; [|inversion H; now right];
-   destruct (trade_fields u o a cum) as [last|]; [|inversion H; now right];
-   destruct (resolve_price o a) as [price|]; [|inversion H; now right];
-   destruct (pending_cancel_ok o a cum leaves && finished_ok a leaves); inversion H; now right).
+  destruct (a_status a =? CREATED)%N; [inversion H; now left|].
+  destruct (resolve_qtys o a) as [[[oq cum] leaves]|]; [|inversion H; now right].
+  destruct (trade_fields u o a cum) as [last|]; [|inversion H; now right].
+  destruct (resolve_price o a) as [price|]; [|inversion H; now right].
+  destruct (pending_cancel_ok o a cum leaves && finished_ok a leaves); inversion H; now right.
+Qed.
+
+(* the OrderID step: counters and the root -> id map *)
+Lemma order_id_for_spec t root :
+  let '(n, t') := order_id_for t root in
+  t_eid t' = t_eid t /\ t_reg t' = t_reg t /\ lookup root (t_oids t') = Some n /\
+  match lookup root (t_oids t) with
+  | Some v => n = v /\ t' = t
+  | None => n = t_oid t + 1 /\ t_oid t' = t_oid t + 1 /\ t_oids t' = t_oids t ++ [(root, n)]
+  end.
+Proof.
+  unfold order_id_for, next_order_id. destruct (lookup root (t_oids t)) as [v|] eqn:L; cbn [t_oid t_eid t_reg t_oids].
+  - rewrite L. repeat split.
+  - repeat split. clear -L. induction (t_oids t) as [|[k v] l IH]; cbn [app lookup] in *.
+    + now rewrite str_eqb_refl.
+    + destruct (str_eqb k root); [discriminate|]. now apply IH.
+Qed.
+
+Lemma lookup_app_keep k l e v : lookup k l = Some v -> lookup k (l ++ [e]) = Some v.
+Proof.
+  induction l as [|[k' v'] l IH]; cbn [app lookup]; [discriminate|].
+  destruct (str_eqb k' k); [auto|exact IH].
 Qed.
 
 Lemma opt_field_shape tag o :
@@ -357,25 +424,64 @@ Qed.
 
 (* --- ids --- *)
 
+Lemma after_ids_facts t o :
+  t_eid (after_ids t o) = t_eid t + 1 /\ t_reg (after_ids t o) = t_reg t /\
+  t_oid t <= t_oid (after_ids t o) <= t_oid t + 1 /\
+  (forall k v, lookup k (t_oids t) = Some v -> lookup k (t_oids (after_ids t o)) = Some v) /\
+  match o_oid o with
+  | Some s => order_id_text t o = s /\ t_oid (after_ids t o) = t_oid t /\ t_oids (after_ids t o) = t_oids t
+  | None =>
+      lookup (root_of o) (t_oids (after_ids t o)) = Some (oid_num t o) /\ order_id_text t o = z_to_dec (oid_num t o) /\
+      match lookup (root_of o) (t_oids t) with
+      | Some v => oid_num t o = v /\ t_oid (after_ids t o) = t_oid t /\ t_oids (after_ids t o) = t_oids t
+      | None => oid_num t o = t_oid t + 1 /\ t_oid (after_ids t o) = t_oid t + 1 /\
+                t_oids (after_ids t o) = t_oids t ++ [(root_of o, t_oid t + 1)]
+      end
+  end.
+Proof.
+  unfold after_ids, ids_state, order_id_text, oid_num. cbn [t_oid t_eid t_reg t_oids].
+  destruct (o_oid o) as [s|].
+  - repeat split; try lia. auto.
+  - pose proof (order_id_for_spec t (root_of o)) as S.
+    destruct (order_id_for t (root_of o)) as [n t1]. cbn [fst snd]. destruct S as (_ & _ & L & S).
+    destruct (lookup (root_of o) (t_oids t)) as [v|] eqn:E.
+    + destruct S as (-> & ->). repeat split; try lia; auto.
+    + destruct S as (-> & S1 & S2). rewrite S1, S2. repeat split; try lia; auto.
+      * intros k v Hk. now apply lookup_app_keep.
+      * now rewrite <- S2.
+Qed.
+
 Lemma exec_ids u t o a m t' :
   fix_exec_report_msg u t o a = Ok m t' ->
   get_s T_ExecID m = Some (z_to_dec (t_eid t + 1)) /\ t_eid t' = t_eid t + 1 /\ t_reg t' = t_reg t /\
   match o_oid o with
-  | Some s => get_s T_OrderID m = Some s /\ t_oid t' = t_oid t
-  | None => get_s T_OrderID m = Some (z_to_dec (t_oid t + 1)) /\ t_oid t' = t_oid t + 1
+  | Some s => get_s T_OrderID m = Some s /\ t_oid t' = t_oid t /\ t_oids t' = t_oids t
+  | None =>
+      match lookup (root_of o) (t_oids t) with
+      | Some v => get_s T_OrderID m = Some (z_to_dec v) /\ t_oid t' = t_oid t /\ t_oids t' = t_oids t
+      | None => get_s T_OrderID m = Some (z_to_dec (t_oid t + 1)) /\ t_oid t' = t_oid t + 1 /\
+                t_oids t' = t_oids t ++ [(root_of o, t_oid t + 1)]
+      end
   end.
 Proof.
   intros H. apply exec_ok_inv in H as (clord & oq & cum & leaves & price & last & _ & _ & _ & _ & TF & _ & _ & _ & -> & ->).
   pose proof (report_get t o a clord oq cum leaves price last u TF) as G. cbn zeta in G.
-  unfold after_ids, order_id_text in *. destruct (o_oid o); cbn [t_eid t_oid t_reg]; intuition.
+  destruct G as (_ & G2 & G3 & _).
+  pose proof (after_ids_facts t o) as (A1 & A2 & _ & _ & A5).
+  split; [exact G3|]. split; [exact A1|]. split; [exact A2|].
+  destruct (o_oid o) as [s|].
+  - destruct A5 as (E & B & C). rewrite G2, E. auto.
+  - destruct A5 as (_ & E & A6). rewrite G2, E.
+    destruct (lookup (root_of o) (t_oids t)) as [v|]; destruct A6 as (-> & B & C); auto.
 Qed.
 
 Lemma exec_fail_ids u t o a t' :
   fix_exec_report_msg u t o a = AssertionFailed t' ->
-  t_eid t <= t_eid t' <= t_eid t + 1 /\ t_oid t <= t_oid t' <= t_oid t + 1 /\ t_reg t' = t_reg t.
+  t_eid t <= t_eid t' <= t_eid t + 1 /\ t_oid t <= t_oid t' <= t_oid t + 1 /\ t_reg t' = t_reg t /\
+  (forall k v, lookup k (t_oids t) = Some v -> lookup k (t_oids t') = Some v).
 Proof.
-  intros H. apply exec_fail_state in H as [->| ->]; [repeat split; lia|].
-  unfold after_ids. destruct (o_oid o); cbn [t_eid t_oid t_reg]; repeat split; lia.
+  intros H. apply exec_fail_state in H as [->| ->]; [repeat split; try lia; auto|].
+  pose proof (after_ids_facts t o) as (A1 & A2 & A3 & A4 & _). repeat split; try lia; auto.
 Qed.
 
 Definition exec_id_of (m : msg) : option str := get_s T_ExecID m.
@@ -612,7 +718,8 @@ Proof.
   - pose proof (exec_ids _ _ _ _ _ _ E) as (_ & _ & _ & I).
     destruct (process_oid _ _ _ _ _ _ E FA) as (O1 & O2 & _).
     assert (S : exists s, order_id_of m = Some s).
-    { unfold order_id_of. destruct (o_oid o); destruct I as (I & _); rewrite I; eauto. }
+    { unfold order_id_of. destruct (o_oid o); [|destruct (lookup (root_of o) (t_oids t))];
+        destruct I as (I & _); rewrite I; eauto. }
     destruct S as (s & S). split; [congruence|]. rewrite S.
     apply drive_oid_inv; [congruence|]. rewrite O2. exact F'.
   - now apply IH.
@@ -649,32 +756,189 @@ Qed.
 Lemma reject_spec mt clord orig st m :
   fix_cxlrep_reject_msg mt clord orig st = ROk m ->
   exists c og r,
-    clord = Some c /\ orig = Some og /\
+    clord = Some c /\ orig = Some og /\ st <> CREATED /\
     m = [(T_OrderID, VS [48%N]); (T_ClOrdID, VS c); (T_OrigClOrdID, VS og); (T_OrdStatus, VS [st]);
          (T_CxlRejResponseTo, VS [r])] /\
     ((mt = [K_ORDERCANCELREQUEST] /\ r = 49%N) \/ (mt = [K_ORDERCANCELREPLACEREQUEST] /\ r = 50%N)).
 Proof.
   unfold fix_cxlrep_reject_msg. destruct clord as [c|]; [|discriminate]. destruct orig as [og|]; [|discriminate].
+  destruct (st =? CREATED)%N eqn:EC; [discriminate|]. apply N.eqb_neq in EC.
   destruct (str_eqb mt [K_ORDERCANCELREQUEST]) eqn:E1.
   - intros H; inversion H; subst. apply str_eqb_eq in E1. exists c, og, 49%N.
-    split; [reflexivity|]. split; [reflexivity|]. split; [reflexivity|]. left. now split.
+    split; [reflexivity|]. split; [reflexivity|]. split; [exact EC|]. split; [reflexivity|]. left. now split.
   - destruct (str_eqb mt [K_ORDERCANCELREPLACEREQUEST]) eqn:E2; [|discriminate].
     intros H; inversion H; subst. apply str_eqb_eq in E2. exists c, og, 50%N.
-    split; [reflexivity|]. split; [reflexivity|]. split; [reflexivity|]. right. now split.
+    split; [reflexivity|]. split; [reflexivity|]. split; [exact EC|]. split; [reflexivity|]. right. now split.
 Qed.
 
 Lemma reject_refuses mt clord orig st :
   fix_cxlrep_reject_msg mt clord orig st = RAssertion <->
-  (exists c og, clord = Some c /\ orig = Some og) /\ mt <> [K_ORDERCANCELREQUEST] /\ mt <> [K_ORDERCANCELREPLACEREQUEST].
+  (exists c og, clord = Some c /\ orig = Some og) /\
+  (st = CREATED \/ (mt <> [K_ORDERCANCELREQUEST] /\ mt <> [K_ORDERCANCELREPLACEREQUEST])).
 Proof.
   unfold fix_cxlrep_reject_msg. destruct clord as [c|]; [|split; [discriminate|intros ((? & ? & ? & ?) & _); discriminate]].
   destruct orig as [og|]; [|split; [discriminate|intros ((? & ? & ? & ?) & _); discriminate]].
-  destruct (str_eqb mt [K_ORDERCANCELREQUEST]) eqn:E1.
-  - split; [discriminate|]. intros (_ & N1 & _). apply str_eqb_eq in E1. contradiction.
-  - destruct (str_eqb mt [K_ORDERCANCELREPLACEREQUEST]) eqn:E2.
-    + split; [discriminate|]. intros (_ & _ & N2). apply str_eqb_eq in E2. contradiction.
-    + split; [|reflexivity]. intros _. split; [now exists c, og|].
-      split; intros E; apply str_eqb_eq in E; congruence.
+  destruct (st =? CREATED)%N eqn:EC.
+  - apply N.eqb_eq in EC. split; [|reflexivity]. intros _. split; [now exists c, og|now left].
+  - apply N.eqb_neq in EC.
+    destruct (str_eqb mt [K_ORDERCANCELREQUEST]) eqn:E1.
+    + split; [discriminate|]. intros (_ & [C|(N1 & _)]); [contradiction|]. apply str_eqb_eq in E1. contradiction.
+    + destruct (str_eqb mt [K_ORDERCANCELREPLACEREQUEST]) eqn:E2.
+      * split; [discriminate|]. intros (_ & [C|(_ & N2)]); [contradiction|]. apply str_eqb_eq in E2. contradiction.
+      * split; [|reflexivity]. intros _. split; [now exists c, og|]. right.
+        split; intros E; apply str_eqb_eq in E; congruence.
+Qed.
+
+(* --- one OrderID per order (fixes/R12b), over any history --- *)
+
+Lemma register_oids t key : t_oids (register t key) = t_oids t /\ t_oid (register t key) = t_oid t.
+Proof. split; reflexivity. Qed.
+
+Lemma step_lookup u t p t' r k v :
+  step u t p = (t', r) -> lookup k (t_oids t) = Some v -> lookup k (t_oids t') = Some v.
+Proof.
+  destruct p as [key|o a]; cbn [step].
+  - intros H; inversion H; subst. now cbn [register t_oids].
+  - destruct (fix_exec_report_msg u t o a) as [m t1|t1] eqn:E; intros H L; inversion H; subst.
+    + apply exec_ok_inv in E as (? & ? & ? & ? & ? & ? & _ & _ & _ & _ & _ & _ & _ & _ & -> & _).
+      now apply (proj1 (proj2 (proj2 (proj2 (after_ids_facts t o))))).
+    + apply exec_fail_ids in E as (_ & _ & _ & M). now apply M.
+Qed.
+
+Lemma run_lookup u ops : forall t t' ms k v,
+  run_ops u t ops = (t', ms) -> lookup k (t_oids t) = Some v -> lookup k (t_oids t') = Some v.
+Proof.
+  induction ops as [|p ops IH]; intros t t' ms k v H L; cbn [run_ops] in H.
+  - inversion H; subst. exact L.
+  - destruct (step u t p) as [t1 r] eqn:S. destruct (run_ops u t1 ops) as [t2 ms'] eqn:R. inversion H; subst.
+    eapply IH; [exact R|]. eapply step_lookup; eassumption.
+Qed.
+
+(* what an accepted call for an order without order_id leaves in the map, and what it reads from it *)
+Lemma exec_oid_map u t o a m t' :
+  fix_exec_report_msg u t o a = Ok m t' -> o_oid o = None ->
+  exists v, lookup (root_of o) (t_oids t') = Some v /\ order_id_of m = Some (z_to_dec v) /\
+            (forall w, lookup (root_of o) (t_oids t) = Some w -> v = w).
+Proof.
+  intros H OID. pose proof (exec_ids _ _ _ _ _ _ H) as (_ & _ & _ & I). rewrite OID in I.
+  apply exec_ok_inv in H as (? & ? & ? & ? & ? & ? & _ & _ & _ & _ & _ & _ & _ & _ & -> & _).
+  pose proof (after_ids_facts t o) as (_ & _ & _ & _ & A). rewrite OID in A. destruct A as (L & _ & A).
+  exists (oid_num t o). split; [exact L|]. unfold order_id_of.
+  destruct (lookup (root_of o) (t_oids t)) as [w|]; destruct A as (-> & _ & _); destruct I as (I & _); rewrite I.
+  - split; [reflexivity|]. intros w' E. now inversion E.
+  - split; [reflexivity|]. discriminate.
+Qed.
+
+(* two fabrications for the same order (same root ClOrdID) with ANY history of helper calls in between carry the
+   same OrderID, whether or not the order object has processed the first report *)
+Lemma order_id_stable u t o1 a1 m1 t1 ops t2 ms o2 a2 m2 t3 :
+  fix_exec_report_msg u t o1 a1 = Ok m1 t1 -> run_ops u t1 ops = (t2, ms) ->
+  fix_exec_report_msg u t2 o2 a2 = Ok m2 t3 ->
+  o_oid o1 = None -> root_of o2 = root_of o1 -> (o_oid o2 = None \/ o_oid o2 = order_id_of m1) ->
+  order_id_of m2 = order_id_of m1.
+Proof.
+  intros H1 R H2 O1 RT O2.
+  destruct (exec_oid_map _ _ _ _ _ _ H1 O1) as (v & L1 & I1 & _).
+  pose proof (run_lookup _ _ _ _ _ _ _ R L1) as L2.
+  destruct O2 as [O2|O2].
+  - destruct (exec_oid_map _ _ _ _ _ _ H2 O2) as (w & _ & I2 & U). rewrite RT in U. rewrite (U _ L2) in I2. congruence.
+  - pose proof (exec_ids _ _ _ _ _ _ H2) as (_ & _ & _ & I). rewrite O2, I1 in I. destruct I as (I & _).
+    unfold order_id_of at 1. rewrite I. now rewrite I1.
+Qed.
+
+(* the map only holds ids that were drawn from the counter, each once *)
+Definition wf_t (t : tstate) : Prop :=
+  Forall (fun e => snd e <= t_oid t) (t_oids t) /\ NoDup (map snd (t_oids t)).
+
+Lemma lookup_in k l v : lookup k l = Some v -> In (k, v) l.
+Proof.
+  induction l as [|[k' v'] l IH]; cbn [lookup]; [discriminate|].
+  destruct (str_eqb k' k) eqn:E; [|right; auto]. intros H; inversion H; subst. apply str_eqb_eq in E. subst. now left.
+Qed.
+
+Lemma NoDup_app_one {A} (l : list A) x : NoDup l -> ~ In x l -> NoDup (l ++ [x]).
+Proof.
+  induction 1 as [|y l NI ND IH]; intros H; cbn [app]; [constructor; [intros []|constructor]|].
+  constructor.
+  - intros I. apply in_app_or in I as [I|[I|[]]]; [contradiction|]. subst. apply H. now left.
+  - apply IH. intros I. apply H. now right.
+Qed.
+
+Lemma after_ids_wf t o : wf_t t -> wf_t (after_ids t o).
+Proof.
+  intros (B & ND). pose proof (after_ids_facts t o) as (_ & _ & A3 & _ & A5). unfold wf_t.
+  destruct (o_oid o) as [s|]; [destruct A5 as (_ & -> & ->); now split|].
+  destruct A5 as (_ & _ & A5). destruct (lookup (root_of o) (t_oids t)) as [v|].
+  - destruct A5 as (_ & -> & ->). now split.
+  - destruct A5 as (_ & E1 & E2). rewrite E1, E2. split.
+    + apply Forall_app. split; [|constructor; [cbn; lia|constructor]].
+      eapply Forall_impl; [|exact B]. cbn. intros e He. lia.
+    + rewrite map_app. cbn [map snd]. apply NoDup_app_one; [exact ND|].
+      intros I. apply in_map_iff in I as (e & E & I). rewrite Forall_forall in B. specialize (B _ I). lia.
+Qed.
+
+Lemma step_wf u t p t' r : step u t p = (t', r) -> wf_t t -> wf_t t'.
+Proof.
+  destruct p as [key|o a]; cbn [step].
+  - intros H; inversion H; subst. auto.
+  - destruct (fix_exec_report_msg u t o a) as [m t1|t1] eqn:E; intros H W; inversion H; subst.
+    + apply exec_ok_inv in E as (? & ? & ? & ? & ? & ? & _ & _ & _ & _ & _ & _ & _ & _ & -> & _). now apply after_ids_wf.
+    + apply exec_fail_state in E as [->| ->]; [exact W|now apply after_ids_wf].
+Qed.
+
+Lemma run_wf u ops : forall t t' ms, run_ops u t ops = (t', ms) -> wf_t t -> wf_t t'.
+Proof.
+  induction ops as [|p ops IH]; intros t t' ms H W; cbn [run_ops] in H.
+  - inversion H; subst. exact W.
+  - destruct (step u t p) as [t1 r] eqn:S. destruct (run_ops u t1 ops) as [t2 ms'] eqn:R. inversion H; subst.
+    eapply IH; [exact R|]. eapply step_wf; eassumption.
+Qed.
+
+Lemma wf_lookup_inj t k1 k2 v : wf_t t -> lookup k1 (t_oids t) = Some v -> lookup k2 (t_oids t) = Some v -> k1 = k2.
+Proof.
+  intros (_ & ND) L1 L2. apply lookup_in in L1, L2. revert ND L1 L2. generalize (t_oids t).
+  induction l as [|[k w] l IH]; cbn [map snd In]; [contradiction|].
+  intros ND [E1|I1] [E2|I2].
+  - congruence.
+  - inversion E1; subst. inversion ND as [|? ? NI _]. exfalso. apply NI. apply in_map_iff. now exists (k2, v).
+  - inversion E2; subst. inversion ND as [|? ? NI _]. exfalso. apply NI. apply in_map_iff. now exists (k1, v).
+  - inversion ND; subst. now apply IH.
+Qed.
+
+(* orders with different root ClOrdIDs never share a drawn OrderID *)
+Lemma order_id_distinct u t o1 a1 m1 t1 ops t2 ms o2 a2 m2 t3 :
+  wf_t t ->
+  fix_exec_report_msg u t o1 a1 = Ok m1 t1 -> run_ops u t1 ops = (t2, ms) ->
+  fix_exec_report_msg u t2 o2 a2 = Ok m2 t3 ->
+  o_oid o1 = None -> o_oid o2 = None -> root_of o2 <> root_of o1 ->
+  order_id_of m2 <> order_id_of m1.
+Proof.
+  intros W H1 R H2 O1 O2 RT E.
+  destruct (exec_oid_map _ _ _ _ _ _ H1 O1) as (v & L1 & I1 & _).
+  destruct (exec_oid_map _ _ _ _ _ _ H2 O2) as (w & L2 & I2 & _).
+  rewrite I1, I2 in E. inversion E as [E']. apply z_to_dec_inj in E'. subst w.
+  assert (W3 : wf_t t3).
+  { apply exec_ok_inv in H2 as (? & ? & ? & ? & ? & ? & _ & _ & _ & _ & _ & _ & _ & _ & -> & _). apply after_ids_wf.
+    eapply run_wf; [exact R|].
+    apply exec_ok_inv in H1 as (? & ? & ? & ? & ? & ? & _ & _ & _ & _ & _ & _ & _ & _ & -> & _). now apply after_ids_wf. }
+  pose proof (run_lookup _ _ _ _ _ _ _ R L1) as L1'.
+  assert (L1'' : lookup (root_of o1) (t_oids t3) = Some v).
+  { apply exec_ok_inv in H2 as (? & ? & ? & ? & ? & ? & _ & _ & _ & _ & _ & _ & _ & _ & -> & _).
+    now apply (proj1 (proj2 (proj2 (proj2 (after_ids_facts t2 o2))))). }
+  apply RT. symmetry. eapply wf_lookup_inj; eassumption.
+Qed.
+
+Lemma wf_t_init : wf_t t_init.
+Proof. split; constructor. Qed.
+
+Lemma order_id_map_wf : wf_t t_init /\ (forall u ops t t' ms, run_ops u t ops = (t', ms) -> wf_t t -> wf_t t').
+Proof. exact (conj wf_t_init run_wf). Qed.
+
+Lemma status_never_created u t o a m t' :
+  fix_exec_report_msg u t o a = Ok m t' -> a_status a <> CREATED /\ get_s T_OrdStatus m = Some [a_status a].
+Proof.
+  intros H. split; [now apply (exec_status_not_created _ _ _ _ _ _ H)|].
+  now apply (exec_values _ _ _ _ _ _ H).
 Qed.
 
 (* ================================================================ witnesses *)
@@ -685,12 +949,14 @@ Definition w_state : tstate := register t_init (o_clord w_order).
 Definition w_args (clord : str) (ex st : N) (cum leaves : option Z) : eargs :=
   mkArgs (Some clord) ex st cum leaves None None None None 0.
 
-(* two reports fabricated for the same order before it processed the first: different OrderIDs *)
+(* two reports fabricated for the same order before it processed the first: since fixes/R12b the same OrderID,
+   and a second order (other root ClOrdID) gets the next one *)
 Lemma open_loop_witness :
   exists t1 m1 t2 m2,
     fix_exec_report_msg 4096 w_state w_order (w_args (o_clord w_order) PENDING_NEW PENDING_NEW None None) = Ok m1 t1 /\
     fix_exec_report_msg 4096 t1 w_order (w_args (o_clord w_order) NEW NEW (Some 0) (Some (8 * 4096))) = Ok m2 t2 /\
-    order_id_of m1 = Some [49%N] /\ order_id_of m2 = Some [50%N].
+    order_id_of m1 = Some [49%N] /\ order_id_of m2 = Some [49%N] /\
+    t_oids t2 = [(root_of w_order, 1)] /\ root_of w_order = [111;114;100]%N.
 Proof. do 4 eexists. vm_compute. repeat split; reflexivity. Qed.
 
 (* a ClOrdID that is not the order's: the helper accepts, the order object raises FIXError *)
@@ -699,11 +965,13 @@ Lemma foreign_clordid_witness :
                snd (process_execution_report w_order m) = RaisedFIXError.
 Proof. do 2 eexists. vm_compute. split; reflexivity. Qed.
 
-(* the library-internal status CREATED ("Z", not a FIX 4.4 OrdStatus value) is accepted and put on the wire *)
+(* the library-internal status CREATED ("Z", not a FIX 4.4 OrdStatus value) is refused before any id is drawn
+   (fixes/R12a) *)
 Lemma created_status_witness :
-  exists m t', fix_exec_report_msg 4096 w_state w_order (w_args (o_clord w_order) NEW CREATED None None) = Ok m t' /\
-               get_s T_OrdStatus m = Some [90%N] /\ In CREATED all_statuses.
-Proof. do 2 eexists. vm_compute. repeat split; try reflexivity. now left. Qed.
+  fix_exec_report_msg 4096 w_state w_order (w_args (o_clord w_order) NEW CREATED None None) = AssertionFailed w_state /\
+  fix_cxlrep_reject_msg [K_ORDERCANCELREQUEST] (Some [97%N]) (Some [98%N]) CREATED = RAssertion /\
+  In CREATED all_statuses.
+Proof. vm_compute. repeat split; try reflexivity. now left. Qed.
 
 (* an inconsistent order object (negative LeavesQty) and omitted arguments: the defaults are copied unchecked *)
 Lemma defaults_need_consistent_order :
@@ -735,7 +1003,7 @@ Proof. do 2 eexists. vm_compute. repeat split; try reflexivity; discriminate. Qe
 Lemma fill_tolerance_witness :
   fix_exec_report_msg 4096 w_state w_live
     (mkArgs (Some (o_clord w_live)) X_TRADE PARTIALLY_FILLED (Some (2 * 4096)) (Some (6 * 4096)) (Some (2 * 4096 + 3))
-            None None None 0) = AssertionFailed (mkT 0 10001 (t_reg w_state)).
+            None None None 0) = AssertionFailed (mkT 0 10001 (t_reg w_state) []).
 Proof. vm_compute. reflexivity. Qed.
 
 (* a closed loop of three calls keeps one OrderID and three increasing ExecIDs *)
